@@ -105,7 +105,7 @@ def accumulator_summary(ctx, nid):
                 f = lin(c)
                 if any(s == 1 and is_one(a) for s, a in f):
                     res['count'] = i
-                if any(s == 1 and isinstance(strip_cast(a), tuple) and any(
+                if any(isinstance(strip_cast(a), tuple) and any(
                         isinstance(x, tuple) and x and x[0] == 'fld' and x[2] == 'policy_weight' for x in subterms(a)) for s, a in f):
                     res['weight'] = i
     ctx.cache[key] = res
@@ -260,7 +260,7 @@ def rule_flow_unsync(ctx):
                               where=ctx.where(nid), expected='weighted_size = weighted_size - old.policy_weight + new_weight; entry.policy_weight = new_weight')
                 if ec is not None:
                     r.violate(nid, 'update-count', 'entry_count', 'an in-place update changes entry_count', where=ctx.where(nid))
-    if n_rem < 9 or n_adm < 2 or n_acc < 2:
+    if (n_rem < 9 or n_adm < 2 or n_acc < 2) and not r.violations:
         raise CheckFailure('FLOW-counters(unsync): analysed only %d removal / %d admission / %d accumulator events (expected >= 9 / 2 / 2)' % (n_rem, n_adm, n_acc))
     r.floor = ((9, 2, 2), 'removal / admission / accumulator events')
     # AUTH-counter-writers: only functions analysed above write the counters
@@ -443,7 +443,16 @@ def rule_flow_sync(ctx):
                 if not reaches:
                     r.violate(nid, 'removed-entry-dropped', e[1].split('::')[-1], 'an entry removed from the map by maintenance does not reach the remove role',
                               where=ctx.where(nid, e[3]))
-    if n_upd < 1 or n_adm < 2:
+    # every path of the upsert role either books the op or has established that the entry is not admitted yet
+    for p in paths:
+        knows = any(isinstance(c, tuple) and c[0] == 'call' and str(c[1]).endswith('::load') and 'is_admitted' in fmt(c) and
+                    any(y == ('param', pidx.get('entry', 3)) for y in subterms(c)) for c, v in p.conds)
+        if not knows:
+            r.instance(function=nid, event='path-without-admitted-test', conds=[fmt(c)[:50] for c, v in p.conds][:4])
+            r.violate(nid, 'op-dropped-before-admitted-test', 'is_admitted', 'a path of the write-op consumer returns without having tested whether the '
+                      'entry is already admitted: the weight change of an update op can be dropped', where=ctx.where(nid),
+                      path=[fmt(c) + ' == ' + str(v) for c, v in p.conds][:6], expected='test entry.is_admitted() first; an admitted entry always books -old +new')
+    if (n_upd < 1 or n_adm < 2) and not r.violations:
         raise CheckFailure('FLOW-counters(sync): analysed %d update / %d admission paths in %s' % (n_upd, n_adm, nid))
     # other removal sites in maintenance and in invalidate
     for fn, b2 in sorted(prog.bodies.items()):
@@ -533,6 +542,6 @@ def rule_flow_sync(ctx):
             if not ok:
                 r.violate(m, 'publish', f, 'the maintenance run does not store Inner.%s on every normal path' % f, where=ctx.where(m))
     r.floor = (n_rem, 'removal events')
-    if n_rem < 6:
+    if n_rem < 6 and not r.violations:
         raise CheckFailure('FLOW-counters(sync): only %d removal events analysed (expected >= 6)' % n_rem)
     return r
